@@ -14,6 +14,7 @@ LEVEL = "proof"
 ASSUMPTIONS = ["gzip / text-mode encoding round-trip the bytes (zlib, UTF-8 locale): observed on every generated file, not proved",
                "a 'record the writer accepts without validation errors' has no TAB/CR/LF inside a field (such records now carry a validation error)"]
 CHANNELS = ["plain", "gz", "handle"]
+PLAIN_NAMES = ["f.maf", "f.maf", "f.maf", "F.MAF.GZ", "f.maf.Gz", "f.gz.maf", "f.mafgz", "f.maf.gZ", "f.GZ"]
 
 
 def gen_header(rng, ann):
@@ -306,7 +307,11 @@ def write_file(channel, header_lines, recs, scheme, names, mode, tmp, header_obj
     from maflib.validation import ValidationStringency as VS
     from maflib.writer import MafWriter
     h = header_obj if header_obj is not None else MafHeader.from_lines(header_lines, validation_stringency=VS.Silent)
-    path = os.path.join(tmp, "f.maf" + (".gz" if channel == "gz" else ""))
+    # the name decides the compression on both sides (from_path and reader_from): exactly the suffix ".gz" means gzip, and
+    # names that merely look like it (other letter case, the suffix elsewhere) are plain files for the writer AND the reader
+    import zlib
+    pick = zlib.crc32(repr((header_lines, recs if api_rows is None else api_rows)).encode("utf-8", "replace"))
+    path = os.path.join(tmp, "f.maf.gz" if channel == "gz" else PLAIN_NAMES[pick % len(PLAIN_NAMES)])
     written = []
     noncanon = []
     if channel in ("handle", "ctor"):
@@ -332,7 +337,9 @@ def write_file(channel, header_lines, recs, scheme, names, mode, tmp, header_obj
     write_file.last_noncanonical = noncanon
     if channel in ("handle", "ctor"):
         return keep["text"], None
-    if channel == "gz":
+    with open(path, "rb") as f:
+        magic = f.read(2)
+    if magic == b"\x1f\x8b":       # what is on disk decides how the harness looks at it, not the name
         with gzip.open(path, "rt") as f:
             text = f.read()
     else:
